@@ -80,4 +80,268 @@ theorem dstarLoop_last_true (d : Bool) (p : Path) : dstarLoop true d (fun q => q
 theorem matches_dstar_only (p : Path) (d : Bool) : «matches» [.dstar] p d = true := by
   simp [«matches», dstarLoop_last_true]
 
+/-! ## a plain last segment -/
+
+theorem scan_noSkip (a : List Atom) (cs : List (Name × Node)) (ans : Path → Bool → Answer) (h : NoSkip ans) :
+    scan a cs ans = (cs.filter (fun x => segMatch a x.1)).map (fun x => ([x.1], x.2.isDir)) := by
+  induction cs with
+  | nil => simp [scan]
+  | cons x rest ih =>
+    obtain ⟨n, c⟩ := x
+    by_cases hm : segMatch a n = true
+    · simp [scan, hm, h [n] c.isDir, ih]
+    · simp [scan, hm, ih]
+
+theorem matches_glob_only (a : List Atom) (p : Path) (d : Bool) :
+    «matches» [.glob a] p d = true ↔ ∃ n, p = [n] ∧ segMatch a n = true := by
+  cases p with
+  | nil => simp [«matches»]
+  | cons c r =>
+    cases r with
+    | nil => simp [«matches»]
+    | cons c' r' => simp [«matches»]
+
+/-! ## segments that are not the last one select directories -/
+
+theorem selDirs_isDir {s : Seg} {t : Node} {x : Path × Node} (h : x ∈ selDirs s t) : ∃ cs, x.2 = .dir cs := by
+  cases t with
+  | file => cases s <;> simp [selDirs] at h
+  | dir cs =>
+    cases s with
+    | glob a =>
+      simp only [selDirs, List.mem_filterMap] at h
+      obtain ⟨y, _, hy⟩ := h
+      split at hy
+      · rename_i hc
+        cases hy
+        simp only [Bool.and_eq_true] at hc
+        cases hx : y.2 with
+        | file => simp [hx, Node.isDir] at hc
+        | dir cs' => exact ⟨cs', rfl⟩
+      · cases hy
+    | dstar =>
+      simp only [selDirs, List.mem_cons] at h
+      rcases h with rfl | h
+      · exact ⟨cs, rfl⟩
+      · exact dsDirs_isDir cs x h
+where
+  dsDirs_isDir : ∀ (cs : List (Name × Node)) (x : Path × Node), x ∈ dsDirs cs → ∃ cs', x.2 = .dir cs'
+    | [], _, h => by simp [dsDirs] at h
+    | (n, .file) :: rest, x, h => by
+      simp only [dsDirs, dsDirsEntry, List.nil_append] at h
+      exact dsDirs_isDir rest x h
+    | (n, .dir cs') :: rest, x, h => by
+      simp only [dsDirs, dsDirsEntry, List.cons_append, List.mem_cons, List.mem_append, List.mem_map] at h
+      rcases h with rfl | ⟨y, hy, rfl⟩ | h
+      · exact ⟨cs', rfl⟩
+      · exact dsDirs_isDir cs' y hy
+      · exact dsDirs_isDir rest x h
+
+/-! ## `**` that is not the last segment -/
+
+/-- the visits a continuation `F` (the walk of the remaining segments) produces from a list of selected directories -/
+def Sel (F : Path → Node → List Visit) (xs : List (Path × Node)) (v : Visit) : Prop :=
+  ∃ x ∈ xs, ∃ w ∈ F x.1 x.2, v = (x.1 ++ w.1, w.2)
+
+/-- `F` visits, in every directory, exactly the entries matching `ps` -/
+def HF (ps : Pattern) (F : Path → Node → List Visit) : Prop :=
+  ∀ p cs w, w ∈ F p (.dir cs) ↔ w ∈ entries (.dir cs) ∧ «matches» ps w.1 w.2 = true
+
+/-- `**` (not last) consumes at least one component of `v` -/
+def Deep (ps : Pattern) (v : Visit) : Prop :=
+  ∃ c r, v.1 = c :: r ∧ dirOK v.2 r = true ∧ dstarLoop false v.2 (fun q => «matches» ps q v.2) r = true
+
+theorem sel_nil (F : Path → Node → List Visit) (v : Visit) : Sel F [] v ↔ False := by simp [Sel]
+
+theorem sel_cons (F : Path → Node → List Visit) (a : Path × Node) (l : List (Path × Node)) (v : Visit) :
+    Sel F (a :: l) v ↔ (∃ w ∈ F a.1 a.2, v = (a.1 ++ w.1, w.2)) ∨ Sel F l v := by
+  simp [Sel]
+
+theorem sel_append (F : Path → Node → List Visit) (l₁ l₂ : List (Path × Node)) (v : Visit) :
+    Sel F (l₁ ++ l₂) v ↔ Sel F l₁ v ∨ Sel F l₂ v := by
+  simp only [Sel, List.mem_append]
+  constructor
+  · rintro ⟨x, hx | hx, h⟩
+    · exact Or.inl ⟨x, hx, h⟩
+    · exact Or.inr ⟨x, hx, h⟩
+  · rintro (⟨x, hx, h⟩ | ⟨x, hx, h⟩)
+    · exact ⟨x, Or.inl hx, h⟩
+    · exact ⟨x, Or.inr hx, h⟩
+
+theorem sel_map (F : Path → Node → List Visit) (n : Name) (l : List (Path × Node)) (v : Visit) :
+    Sel F (l.map (fun x => (n :: x.1, x.2))) v ↔
+      ∃ v', Sel (fun p => F (n :: p)) l v' ∧ v = (n :: v'.1, v'.2) := by
+  simp only [Sel, List.mem_map]
+  constructor
+  · rintro ⟨_, ⟨x, hx, rfl⟩, w, hw, rfl⟩
+    exact ⟨(x.1 ++ w.1, w.2), ⟨x, hx, w, hw, rfl⟩, rfl⟩
+  · rintro ⟨_, ⟨x, hx, w, hw, rfl⟩, rfl⟩
+    exact ⟨(n :: x.1, x.2), ⟨x, hx, rfl⟩, w, hw, rfl⟩
+
+theorem dstarLoop_unfold (d : Bool) (k : Path → Bool) (p : Path) :
+    dstarLoop false d k p = true ↔
+      k p = true ∨ ∃ c r, p = c :: r ∧ dirOK d r = true ∧ dstarLoop false d k r = true := by
+  cases p with
+  | nil => simp [dstarLoop]
+  | cons c r =>
+    simp only [dstarLoop, Bool.or_eq_true, Bool.and_eq_true, Bool.false_or, List.cons.injEq]
+    constructor
+    · rintro (h | ⟨h1, h2⟩)
+      · exact Or.inl h
+      · exact Or.inr ⟨c, r, ⟨rfl, rfl⟩, h1, h2⟩
+    · rintro (h | ⟨_, _, ⟨rfl, rfl⟩, h1, h2⟩)
+      · exact Or.inl h
+      · exact Or.inr ⟨h1, h2⟩
+
+/-- below the directory `n`: `**` consumes `n`, and then either stops or goes on consuming -/
+theorem deep_cons (ps : Pattern) (n : Name) (w : Visit) :
+    Deep ps (n :: w.1, w.2) ↔ dirOK w.2 w.1 = true ∧ («matches» ps w.1 w.2 = true ∨ Deep ps w) := by
+  unfold Deep
+  constructor
+  · rintro ⟨c, r, h, hd, hl⟩
+    simp only [List.cons.injEq] at h
+    obtain ⟨rfl, rfl⟩ := h
+    exact ⟨hd, (dstarLoop_unfold _ _ _).1 hl⟩
+  · rintro ⟨hd, h⟩
+    exact ⟨n, w.1, rfl, hd, (dstarLoop_unfold _ _ _).2 h⟩
+
+theorem deep_entries_dir (ps : Pattern) (cs : List (Name × Node)) (w : Visit) :
+    w ∈ entries (.dir cs) ∧ Deep ps w ↔ w ∈ entriesL cs ∧ Deep ps w := by
+  simp only [entries, List.mem_cons]
+  constructor
+  · rintro ⟨rfl | h, hd⟩
+    · obtain ⟨c, r, h, _⟩ := hd; simp at h
+    · exact ⟨h, hd⟩
+  · rintro ⟨h, hd⟩; exact ⟨Or.inr h, hd⟩
+
+mutual
+theorem sel_dsDirs (ps : Pattern) : ∀ (cs : List (Name × Node)) (F : Path → Node → List Visit), HF ps F → ∀ v,
+    (Sel F (dsDirs cs) v ↔ v ∈ entriesL cs ∧ Deep ps v)
+  | [], F, _, v => by simp [sel_nil, dsDirs, entriesL]
+  | (n, c) :: rest, F, hF, v => by
+    have h1 := sel_dsDirsEntry ps c n F hF v
+    have h2 := sel_dsDirs ps rest F hF v
+    simp only [dsDirs, entriesL, List.mem_append, sel_append, h1, h2]
+    constructor
+    · rintro (⟨a, b⟩ | ⟨a, b⟩)
+      · exact ⟨Or.inl a, b⟩
+      · exact ⟨Or.inr a, b⟩
+    · rintro ⟨a | a, b⟩
+      · exact Or.inl ⟨a, b⟩
+      · exact Or.inr ⟨a, b⟩
+theorem sel_dsDirsEntry (ps : Pattern) : ∀ (c : Node) (n : Name) (F : Path → Node → List Visit), HF ps F → ∀ v,
+    (Sel F (dsDirsEntry c n) v ↔ v ∈ pre n (entries c) ∧ Deep ps v)
+  | .file, n, F, _, v => by
+    simp only [dsDirsEntry, sel_nil, entries, false_iff, mem_pre, List.mem_singleton]
+    rintro ⟨⟨w, rfl, rfl⟩, hd⟩
+    have := (deep_cons ps n ([], false)).1 hd
+    simp [dirOK] at this
+  | .dir cs, n, F, hF, v => by
+    have ih := sel_dsDirs ps cs (fun p => F (n :: p)) (fun p cs' w => hF (n :: p) cs' w)
+    simp only [dsDirsEntry, sel_cons, sel_map, mem_pre, hF [n] cs, ih]
+    constructor
+    · rintro (⟨w, ⟨hw, hm⟩, rfl⟩ | ⟨v', ⟨hv', hd⟩, rfl⟩)
+      · refine ⟨⟨w, hw, rfl⟩, (deep_cons ps n w).2 ⟨?_, Or.inl hm⟩⟩
+        simpa [Node.isDir] using dirOK_of_mem_entries hw
+      · have hv'' : v' ∈ entries (.dir cs) := ((deep_entries_dir ps cs v').2 ⟨hv', hd⟩).1
+        refine ⟨⟨v', hv'', rfl⟩, (deep_cons ps n v').2 ⟨?_, Or.inr hd⟩⟩
+        simpa [Node.isDir] using dirOK_of_mem_entries hv''
+    · rintro ⟨⟨w, hw, rfl⟩, hd⟩
+      rcases ((deep_cons ps n w).1 hd).2 with hm | hd'
+      · exact Or.inl ⟨w, ⟨hw, hm⟩, rfl⟩
+      · exact Or.inr ⟨w, (deep_entries_dir ps cs w).1 ⟨hw, hd'⟩, rfl⟩
+end
+
+/-! ## the whole walk -/
+
+theorem mem_walkFrom_cons_cons (s s' : Seg) (rest : Pattern) (t : Node) (ans : Path → Bool → Answer) (v : Visit) :
+    v ∈ walkFrom (s :: s' :: rest) t ans ↔
+      Sel (fun p d => walkFrom (s' :: rest) d (under ans p)) (selDirs s t) v := by
+  simp only [walkFrom, List.mem_flatMap, List.mem_map, Sel]
+  constructor
+  · rintro ⟨x, hx, w, hw, rfl⟩; exact ⟨x, hx, w, hw, rfl⟩
+  · rintro ⟨x, hx, w, hw, rfl⟩; exact ⟨x, hx, w, hw, rfl⟩
+
+theorem sel_selDirs_glob (F : Path → Node → List Visit) (a : List Atom) (cs : List (Name × Node)) (v : Visit) :
+    Sel F (selDirs (.glob a) (.dir cs)) v ↔
+      ∃ n c, (n, c) ∈ cs ∧ segMatch a n = true ∧ c.isDir = true ∧ ∃ w ∈ F [n] c, v = (n :: w.1, w.2) := by
+  simp only [Sel, selDirs, List.mem_filterMap]
+  constructor
+  · rintro ⟨x, ⟨y, hy, hx⟩, w, hw, rfl⟩
+    split at hx
+    · rename_i hc
+      cases hx
+      simp only [Bool.and_eq_true] at hc
+      exact ⟨y.1, y.2, hy, hc.1, hc.2, w, hw, rfl⟩
+    · cases hx
+  · rintro ⟨n, c, hm, hs, hd, w, hw, rfl⟩
+    exact ⟨([n], c), ⟨(n, c), hm, by simp [hs, hd]⟩, w, hw, rfl⟩
+
+/-- **the walk visits exactly the matching entries** when the callback never answers `SkipDir` -/
+theorem mem_walkFrom_noSkip : ∀ (pat : Pattern), pat ≠ [] → ∀ (cs : List (Name × Node)) (ans : Path → Bool → Answer),
+    NoSkip ans → ∀ v : Visit,
+    (v ∈ walkFrom pat (.dir cs) ans ↔ v ∈ entries (.dir cs) ∧ «matches» pat v.1 v.2 = true)
+  | [], h, _, _, _, _ => absurd rfl h
+  | [.dstar], _, cs, ans, hns, v => by
+    simp [walkFrom, lastSeg, hns [] true, dsWalk_noSkip cs ans hns, entries, matches_dstar_only]
+  | [.glob a], _, cs, ans, hns, v => by
+    simp only [walkFrom, lastSeg, scan_noSkip a cs ans hns, matches_glob_only, List.mem_map, List.mem_filter,
+      entries, List.mem_cons]
+    constructor
+    · rintro ⟨x, ⟨hx, hm⟩, rfl⟩
+      refine ⟨Or.inr (mem_entriesL.2 ⟨x.1, x.2, hx, ([], x.2.isDir), nil_mem_entries.2 rfl, rfl⟩), x.1, rfl, hm⟩
+    · rintro ⟨h, n, hp, hm⟩
+      rcases h with rfl | h
+      · simp at hp
+      · obtain ⟨n', c, hc, w, hw, rfl⟩ := mem_entriesL.1 h
+        simp only [List.cons.injEq] at hp
+        obtain ⟨rfl, hw1⟩ := hp
+        obtain ⟨w1, w2⟩ := w
+        simp only at hw1
+        subst hw1
+        have := nil_mem_entries.1 hw
+        subst this
+        exact ⟨(n', c), ⟨hc, hm⟩, rfl⟩
+  | s :: s' :: rest, _, cs, ans, hns, v => by
+    have hF : HF (s' :: rest) (fun p d => walkFrom (s' :: rest) d (under ans p)) :=
+      fun p cs' w => mem_walkFrom_noSkip (s' :: rest) (by simp) cs' (under ans p) (hns.under p) w
+    rw [mem_walkFrom_cons_cons]
+    cases s with
+    | dstar =>
+      simp only [selDirs, sel_cons, sel_dsDirs (s' :: rest) cs _ hF, hF [] cs, List.nil_append, «matches»,
+        List.isEmpty_cons]
+      rw [dstarLoop_unfold]
+      constructor
+      · rintro (⟨w, ⟨hw, hm⟩, rfl⟩ | ⟨hv, hd⟩)
+        · exact ⟨hw, Or.inl hm⟩
+        · exact ⟨((deep_entries_dir (s' :: rest) cs v).2 ⟨hv, hd⟩).1, Or.inr hd⟩
+      · rintro ⟨hv, hm | hd⟩
+        · exact Or.inl ⟨v, ⟨hv, hm⟩, rfl⟩
+        · exact Or.inr ((deep_entries_dir (s' :: rest) cs v).1 ⟨hv, hd⟩)
+    | glob a =>
+      rw [sel_selDirs_glob]
+      constructor
+      · rintro ⟨n, c, hc, hs, hd, w, hw, rfl⟩
+        cases c with
+        | file => simp [Node.isDir] at hd
+        | dir cs' =>
+          obtain ⟨hw, hm⟩ := (hF [n] cs' w).1 hw
+          refine ⟨?_, ?_⟩
+          · simp only [entries, List.mem_cons]
+            exact Or.inr (mem_entriesL.2 ⟨n, _, hc, w, hw, rfl⟩)
+          · have := dirOK_of_mem_entries hw
+            simp only [Node.isDir] at this
+            simp [«matches», hs, this, hm]
+      · rintro ⟨hv, hm⟩
+        simp only [entries, List.mem_cons] at hv
+        rcases hv with rfl | hv
+        · simp [«matches»] at hm
+        · obtain ⟨n, c, hc, w, hw, rfl⟩ := mem_entriesL.1 hv
+          simp only [«matches», List.isEmpty_cons, Bool.false_or, Bool.and_eq_true] at hm
+          obtain ⟨⟨hs, hd⟩, hm⟩ := hm
+          have hcd : c.isDir = true := by rw [← dirOK_of_mem_entries hw]; exact hd
+          cases c with
+          | file => simp [Node.isDir] at hcd
+          | dir cs' => exact ⟨n, _, hc, hs, rfl, w, (hF [n] cs' w).2 ⟨hw, hm⟩, rfl⟩
+
 end Spok.Glob
